@@ -614,3 +614,165 @@ Proof.
   exists ops, b', r. repeat split; try assumption.
   all: vm_compute in H2; injection H2 as <-; reflexivity.
 Qed.
+
+(* ============================================================================================
+   Clause by clause: what the result shows at EVERY path (set, overwrite, delete, recursive merge,
+   and what must not change).
+   ============================================================================================ *)
+
+Lemma merge_leaf_step t kvs k q : nodup_keys (map fst kvs) = true ->
+  leaf_at (merge t (JObj kvs)) (k :: q) =
+  match lookup k kvs with
+  | None => leaf_at t (k :: q)
+  | Some JNull => None
+  | Some v => leaf_at (merge (sub_or_null (lookup k (obj_of t))) v) q
+  end.
+Proof.
+  intro Hnd. rewrite merge_obj, leaf_at_obj_cons, mgo_lookup by exact Hnd.
+  destruct (lookup k kvs) as [v|].
+  - destruct v; reflexivity.
+  - symmetry. apply leaf_at_cons_obj_of.
+Qed.
+
+Lemma untouchedb_nonobj v q : is_obj v = false -> untouchedb v q = false.
+Proof. destruct q; [reflexivity|]. destruct v; simpl; intro H; try reflexivity; discriminate. Qed.
+
+(* RFC 7386 merge, path by path *)
+Lemma merge_requested q : forall p t, is_obj p = true -> wf p = true ->
+  leaf_at (merge t p) q = requested p t q.
+Proof.
+  induction q as [|k q IH]; intros p t Ho Hwf; destruct p as [| | | | |kvs|]; try discriminate.
+  - rewrite merge_obj. reflexivity.
+  - simpl in Hwf. apply andb_true_iff in Hwf. destruct Hwf as [Hnd Hwfs].
+    rewrite merge_leaf_step by exact Hnd. unfold requested. simpl untouchedb. rewrite leaf_at_obj_cons.
+    destruct (lookup k kvs) as [v|] eqn:El; [|reflexivity].
+    assert (Hwv : wf v = true).
+    { apply md_lookup_in in El. rewrite forallb_forall in Hwfs. apply (Hwfs _ El). }
+    destruct (is_obj v) eqn:Ev.
+    + rewrite IH by assumption. unfold requested.
+      destruct v; try discriminate.
+      destruct (untouchedb (JObj kvs0) q) eqn:Eu; [|reflexivity].
+      apply leaf_at_sub. intros ->. discriminate.
+    + rewrite (untouchedb_nonobj v q Ev).
+      destruct v; try discriminate; try reflexivity;
+        (destruct q; [reflexivity|]); simpl; reflexivity.
+Qed.
+
+(* the result of Patch._apply_patch at every path *)
+Theorem dsl_requested p body :
+  is_obj p = true -> wf p = true -> is_obj body = true ->
+  exists b', apply_dsl p body = Ok b' /\ forall q, leaf_at b' q = requested p body q.
+Proof.
+  intros Ho Hwf Hb. destruct (dsl_is_merge p body Ho Hwf Hb) as (b' & Ha & Hl).
+  exists b'. split; [exact Ha|]. intro q. rewrite Hl. apply merge_requested; assumption.
+Qed.
+
+Lemma resolve_some_touched p q x : resolve p q = Some x -> forall r, is_obj x = false \/ r = [] -> untouchedb p (q ++ r) = false.
+Proof.
+  revert p. induction q as [|k q IH]; intros p Hr r Hx; simpl in Hr.
+  - injection Hr as ->. simpl. destruct Hx as [Hx | ->]; [apply untouchedb_nonobj; exact Hx|reflexivity].
+  - destruct p; try discriminate. simpl. destruct (lookup k kvs) as [v|]; [|discriminate]. eapply IH; eauto.
+Qed.
+
+(* set / overwrite: a non-null leaf v of the patch at q is what the object shows at q, and nothing remains below it *)
+Lemma requested_set p body q v r :
+  resolve p q = Some v -> is_obj v = false -> v <> JNull -> requested p body (q ++ r) = leaf_at v r.
+Proof.
+  intros Hr Hno Hnn. unfold requested. rewrite (resolve_some_touched p q v Hr r (or_introl Hno)).
+  rewrite leaf_at_app, Hr. destruct r as [|k r].
+  - rewrite leaf_at_nil. destruct v; try congruence; discriminate.
+  - rewrite leaf_at_nonobj_cons by exact Hno. reflexivity.
+Qed.
+
+(* delete: a null of the patch at q: nothing at q or below *)
+Lemma requested_delete p body q r : resolve p q = Some JNull -> requested p body (q ++ r) = None.
+Proof.
+  intro Hr. unfold requested. rewrite (resolve_some_touched p q JNull Hr r (or_introl eq_refl)).
+  rewrite leaf_at_app, Hr. destruct r; reflexivity.
+Qed.
+
+(* must not change: a path the patch says nothing about *)
+Lemma requested_untouched p body q : untouchedb p q = true -> requested p body q = leaf_at body q.
+Proof. intro H. unfold requested. now rewrite H. Qed.
+
+(* a mapping node of the patch is a mapping (or nothing) in the result, never a scalar *)
+Lemma requested_interior p body q o : resolve p q = Some (JObj o) -> requested p body q = None.
+Proof.
+  intro Hr. unfold requested.
+  pose proof (resolve_some_touched p q (JObj o) Hr [] (or_intror eq_refl)) as Hu. rewrite app_nil_r in Hu. rewrite Hu.
+  unfold leaf_at. rewrite Hr. reflexivity.
+Qed.
+
+Theorem dsl_clauses p body :
+  is_obj p = true -> wf p = true -> is_obj body = true ->
+  exists b', apply_dsl p body = Ok b' /\
+    (forall q v r, resolve p q = Some v -> is_obj v = false -> v <> JNull -> leaf_at b' (q ++ r) = leaf_at v r) /\
+    (forall q r, resolve p q = Some JNull -> leaf_at b' (q ++ r) = None) /\
+    (forall q o, resolve p q = Some (JObj o) -> leaf_at b' q = None) /\
+    (forall q, untouchedb p q = true -> leaf_at b' q = leaf_at body q).
+Proof.
+  intros Ho Hwf Hb. destruct (dsl_requested p body Ho Hwf Hb) as (b' & Ha & Hl).
+  exists b'. split; [exact Ha|]. repeat split; intros; rewrite Hl.
+  - apply requested_set; assumption.
+  - apply requested_delete; assumption.
+  - eapply requested_interior; eauto.
+  - apply requested_untouched; assumption.
+Qed.
+
+(* every path falls under exactly one clause *)
+Lemma clause_cases p q :
+  untouchedb p q = true \/
+  (exists q1 r v, q = q1 ++ r /\ resolve p q1 = Some v /\ is_obj v = false) \/
+  (exists o, resolve p q = Some (JObj o)) \/
+  (q = [] /\ is_obj p = false).
+Proof.
+  revert p. induction q as [|k q IH]; intro p.
+  - destruct (is_obj p) eqn:Eo.
+    + right. right. left. destruct p; try discriminate. eexists. reflexivity.
+    + right. left. exists [], [], p. auto.
+  - destruct p as [| | | | |kvs|];
+      try (right; left; eexists [], (k :: q), _; repeat split; reflexivity).
+    simpl. destruct (lookup k kvs) as [v|] eqn:El; [|left; reflexivity].
+    destruct (IH v) as [H | [(q1 & r & x & -> & Hr & Hx) | [(o & Hr) | (-> & Hx)]]].
+    + left. exact H.
+    + right. left. exists (k :: q1), r, x. repeat split; [|exact Hx]. simpl. now rewrite El.
+    + right. right. left. exists o. exact Hr.
+    + right. left. exists [k], [], v. repeat split; [|exact Hx]. simpl. now rewrite El.
+Qed.
+
+(* ---------- how the content is filled ---------- *)
+
+Lemma ensure_resolve q : forall c v c', q <> [] -> ensure c q v = Ok c' -> resolve c' q = Some v.
+Proof.
+  induction q as [|k q IH]; intros c v c' Hne He; [congruence|].
+  destruct q as [|k2 q].
+  - simpl in He. destruct c; try discriminate. injection He as <-. simpl. now rewrite md_lookup_set_eq.
+  - destruct c as [| | | | |o|]; try discriminate.
+    change (ensure (JObj o) (k :: k2 :: q) v) with
+      (bind (ensure (match lookup k o with Some s => s | None => JObj [] end) (k2 :: q) v)
+            (fun sub' => Ok (JObj (set k sub' o)))) in He.
+    destruct (ensure (match lookup k o with Some s => s | None => JObj [] end) (k2 :: q) v) as [sub'| | |] eqn:Es;
+      try discriminate.
+    simpl in He. injection He as <-.
+    change (resolve (JObj (set k sub' o)) (k :: k2 :: q)) with
+      (match lookup k (set k sub' o) with Some x => resolve x (k2 :: q) | None => None end).
+    rewrite md_lookup_set_eq. eapply IH; [discriminate|exact Es].
+Qed.
+
+(* the last write of a handler is in the content handed to as_json_patch *)
+Lemma last_write_recorded writes q v :
+  q <> [] -> (exists c, ensure (content_of writes) q v = Ok c) -> resolve (content_of (writes ++ [(q, v)])) q = Some v.
+Proof.
+  intros Hq (c & Hc). unfold content_of. rewrite fold_left_app. simpl. unfold apply_write at 1. simpl.
+  fold (content_of writes). rewrite Hc. eapply ensure_resolve; eauto.
+Qed.
+
+Example clauses_example :
+  exists b', apply_dsl ex_patch ex_body = Ok b' /\
+    leaf_at b' ["spec"; "a"; "c"] = Some (JNum 1%Z) /\          (* set *)
+    leaf_at b' ["spec"; "was-a-string"; "now"] = Some (JStr "a mapping") /\   (* type change + set *)
+    leaf_at b' ["spec"; "a"; "b"] = None /\                     (* delete *)
+    leaf_at b' ["spec"; "gone"; "z"] = None /\                  (* delete of a subtree *)
+    leaf_at b' ["spec"; "keep"] = Some (JStr "v") /\            (* untouched *)
+    untouchedb ex_patch ["spec"; "keep"] = true.
+Proof. eexists. split; [reflexivity|]. repeat split. Qed.
